@@ -159,7 +159,17 @@ func checkC02(c *Check) {
 		rate := paramNamed(fn, "rate")
 		scs := settleCallsIn(l, fn, settle)
 		for _, call := range callsIn(fn, false) {
-			if !isStoreSet(call) {
+			// the write of the new payment: a direct store write, or the keeper's persist helper
+			isSettle := false
+			for _, x := range scs {
+				if ssa.CallInstruction(x) == call {
+					isSettle = true
+				}
+			}
+			if !isStoreSet(call) && !(isMutation(call, mut) && !isSettle && !isBankMutatorCall(call)) {
+				continue
+			}
+			if g := call.Common().StaticCallee(); g != nil && len(settleCallsIn(l, g, settle)) > 0 {
 				continue
 			}
 			nz := false
@@ -458,6 +468,11 @@ func recordFreshAt(fn *ssa.Function, ptr ssa.Value, s *ssa.Call, use ssa.Instruc
 		return false, "payment list " + short(Sym(lst)) + " was enumerated before the settlement and is paid out/persisted after it"
 	case *ssa.Parameter:
 		return true, ""
+	case *ssa.Call:
+		// a record handed back by a call made after the settlement (a constructor or a fresh load)
+		if p.Parent() == s.Parent() && instrDominates(s, p) {
+			return true, ""
+		}
 	}
 	return false, "cannot establish that " + short(Sym(ptr)) + " was loaded after the settlement"
 }
